@@ -36,6 +36,13 @@ def raman_fiber(rng, uid, length=None):
              {'power': G.rnd(rng, 0.1, 0.3, 4), 'frequency': 201e12, 'propagation_direction': 'counterprop'}]
     if rng.random() < 0.3:
         pumps.append({'power': G.rnd(rng, 0.05, 0.15, 4), 'frequency': 203e12, 'propagation_direction': 'coprop'})
+    if rng.random() < 0.5:
+        # a pump below (some of) the channels, as in S-band / ultra-wide-band systems: it takes power from the
+        # channels above it and must not add (negative) noise to them
+        pumps.append({'power': G.rnd(rng, 0.02, 0.12, 4), 'frequency': G.pick(rng, [190.0e12, 190.8e12, 193.9e12]),
+                      'propagation_direction': G.pick(rng, ['counterprop', 'counterprop', 'coprop'])})
+        if rng.random() < 0.5:
+            pumps = pumps[-1:]          # nothing but this pump: whatever noise it adds is not hidden by the others
     return {'uid': uid, 'type': 'RamanFiber', 'type_variety': 'SSMF',
             'operational': {'temperature': 283, 'raman_pumps': pumps},
             'params': {'length': length, 'loss_coef': G.pick(rng, [0.2, 0.19, 0.21]), 'length_units': 'km',
@@ -196,7 +203,7 @@ MB_BANDS = [{'f_min': 191.3e12, 'f_max': 196.0e12, 'spacing': 50e9},
 MB_VARIETIES = ['std_low_gain_multiband_bis', 'std_medium_gain_multiband', 'std_low_gain_multiband']
 
 
-def multibandify(tj, rng, varieties=MB_VARIETIES, only=None):
+def multibandify(tj, rng, varieties=MB_VARIETIES, only=None, members=None):
     """Inserts a user-placed multiband amplifier (variety given, no settings) at every ROADM/fibre junction.
     The variety is stated because auto-selection of multiband varieties is a separate, listed defect (C10)."""
     els, cx = tj['elements'], tj['connections']
@@ -208,8 +215,16 @@ def multibandify(tj, rng, varieties=MB_VARIETIES, only=None):
             continue
         if (ta == 'Roadm' and tb == 'Fiber') or (ta == 'Fiber' and tb == 'Fiber') or (ta == 'Fiber' and tb == 'Roadm'):
             uid = f'mbamp {a} to {b}'
-            els.append({'uid': uid, 'type': 'Multiband_amplifier', 'type_variety': G.pick(rng, varieties),
-                        'amplifiers': [], 'metadata': G._loc(0, 0)})
+            variety = G.pick(rng, varieties)
+            amps = []
+            if members and rng.random() < 0.5:
+                # per-band amplifiers listed by the user, lowest band first (the library lists C before L): the
+                # order of the list is the order in which the bands are amplified and merged again
+                amps = [{'type_variety': v, 'operational': {'gain_target': None, 'delta_p': None, 'tilt_target': None,
+                                                            'out_voa': None}}
+                        for v in reversed(members[variety])]
+            els.append({'uid': uid, 'type': 'Multiband_amplifier', 'type_variety': variety,
+                        'amplifiers': amps, 'metadata': G._loc(0, 0)})
             typ[uid] = 'Multiband_amplifier'
             cx.remove(c)
             cx.append({'from_node': a, 'to_node': uid})
@@ -225,7 +240,8 @@ def build_multiband(rng, dispersion_variants=False):
         return {'design_bands': deepcopy(MB_BANDS)}
     tj, tdesc = G.gen_topology(rng, max_sites=4, max_spans=2, user_amps=False, fused=False, roadm_params=rp,
                                max_km=110, dispersion_variants=dispersion_variants)
-    multibandify(tj, rng)
+    members = {e['type_variety']: e['amplifiers'] for e in ej['Edfa'] if e.get('type_def') == 'multi_band'}
+    multibandify(tj, rng, members=members)
     network = G.make_network(tj, equipment)
     G.reset_sim_params(None)
     G.design(equipment, network)
